@@ -408,7 +408,16 @@ func (c *c16case) install() *c16net {
 		}
 	}
 	if c.saveENOSPC {
-		pfs = append(pfs, simos.PathFault{Path: simHome + "/pprof", Op: simos.OpMkdir, Kind: simos.FErr, Errno: syscall.ENOSPC})
+		// Saving the merged remote profile under $HOME/pprof must not matter:
+		// either the directory cannot be made, or the copy cannot be created or written.
+		switch len(c.srcs) % 3 {
+		case 0:
+			pfs = append(pfs, simos.PathFault{Path: simHome + "/pprof", Op: simos.OpMkdir, Kind: simos.FErr, Errno: syscall.ENOSPC})
+		case 1:
+			pfs = append(pfs, simos.PathFault{Path: simHome + "/pprof/", Prefix: true, Op: simos.OpCreate, Kind: simos.FErr, Errno: syscall.EACCES})
+		case 2:
+			pfs = append(pfs, simos.PathFault{Path: simHome + "/pprof/", Prefix: true, Op: simos.OpWrite, Kind: simos.FShortWrite, Arg: 10, Errno: syscall.ENOSPC})
+		}
 	}
 	simos.SetPathFaults(pfs)
 	return n
@@ -642,7 +651,7 @@ func runC16(x *xctx) *violation {
 	if t.Bool(K, 35) {
 		nb = 1 + t.Choose(K, 3)
 	}
-	c := &c16case{diffBase: nb > 0 && t.Bool(K, 40), hasBase: nb > 0, saveENOSPC: t.Bool(simrt.KFault, 15)}
+	c := &c16case{diffBase: nb > 0 && t.Bool(K, 40), hasBase: nb > 0, saveENOSPC: t.Bool(simrt.KFault, 30)}
 	pctFail := []int{0, 15, 40, 70, 97}[t.Choose(simrt.KFault, 5)]
 	fileOnly := n > 10 && t.Bool(K, 50)
 	for i := 0; i < n+nb; i++ {
